@@ -207,6 +207,19 @@ def add_dyndep(draw, g, f_dd_validation=True):
                               generator=False, deps='', hidden=[], variant='v0', pool='', rsp=None, dd=None, depfile_layout=0))
     for pe in producers:
         edges.insert(0, pe)
+    # chained two levels deep: the second dyndep file is made from an output of a statement that is bound to the first one,
+    # so it can only be produced (and the statements bound to it only be completed) after the first file has been loaded
+    if len(producers) == 2 and draw(st.integers(0, 1)) == 1:
+        pe1 = [x for x in producers if x['outs'] == ['dd1']]
+        b0 = [i for i, x in enumerate(edges) if x.get('dd') == 'dd0']
+        b1 = [i for i, x in enumerate(edges) if x.get('dd') == 'dd1']
+        if pe1 and b0 and b1 and min(b0) < min(b1):
+            X = edges[min(b0)]
+            pe1 = pe1[0]
+            edges.remove(pe1)
+            edges.insert(edges.index(X) + 1, pe1)
+            pe1['exp'] = pe1['exp'] + [X['outs'][0]]
+            g['dd_chained'] = True
     for e in edges:
         if e.get('is_dd_producer'):
             e['content_override'] = {key(e): dict(by='', table={}, default=models.dyndep_text(g, key(e)))}
